@@ -1,7 +1,8 @@
 package transport
 
 //vcheck:init github.com/lni/dragonboat/v4/internal/settings,github.com/lni/dragonboat/v4/raftpb,github.com/lni/dragonboat/v4/internal/fileutil,github.com/lni/dragonboat/v4/internal/server,github.com/lni/dragonboat/v4/internal/rsm,github.com/lni/dragonboat/v4/internal/transport
-//vcheck:bounds chunks: sender chunk size set to 4 (arithmetic lemma, file sizes 1..13) or 1040 (end-to-end, so that the 1 KiB header fits the first chunk); one snapshot of 2-3 chunks (8 symbolic payload bytes, 0-2 external files of 3 and 2 symbolic bytes); one perturbation per run (drop / duplicate / swap / foreign sender / wrong deployment id / wrong binary version / corrupt byte / restart from chunk 0) and one symbolic placement of the timeout ticks; two streams with different indexes for the non-interference lemma
+//vcheck:scale internal/settings/hard.go SnapshotChunkSize 16
+//vcheck:bounds chunks: rsm block size / settings.SnapshotChunkSize scaled 2 MiB -> 16 B; many-chunk lemma: a 60-byte payload (4 blocks) cut into chunk 0 = header + 16 B and 24-byte chunks (>= 5 chunks), one altered byte at a symbolic position after the header with a symbolic mask, every chunk delivered regardless of refusals; sender chunk size set to 4 (arithmetic lemma, file sizes 1..13) or 1040 (end-to-end, so that the 1 KiB header fits the first chunk); one snapshot of 2-3 chunks (8 symbolic payload bytes, 0-2 external files of 3 and 2 symbolic bytes); one perturbation per run (drop / duplicate / swap / foreign sender / wrong deployment id / wrong binary version / corrupt byte / restart from chunk 0 / restart with a damaged chunk 0 followed by the rest of the first attempt) and one symbolic placement of the timeout ticks; two streams with different indexes for the non-interference lemma
 //vcheck:stub chunks: file system = the real lni/vfs strict in-memory FS executed symbolically; CRC-32 as in C14; onReceive / confirm = recorders
 
 import (
@@ -184,7 +185,7 @@ func vTempDirGone(fs vfs.IFS) bool {
 // the next expected chunk of its stream from its sender with matching
 // deployment id / binary version is ignored without effect, and the stream
 // finalizes iff the accepted chunks are the complete valid sequence.
-//vcheck: reach=intact,dropped,duplicated,swapped,foreign,wrongdid,wrongbinver,corrupt,restarted,done workers=16
+//vcheck: reach=intact,dropped,duplicated,swapped,foreign,wrongdid,wrongbinver,corrupt,restarted,badrestart,done workers=16 forbid=.
 func VHarness_C15_ReceiverEndToEnd() {
 	snapshotChunkSize = 1040
 	fs := vfs.NewMemFS()
@@ -220,7 +221,7 @@ func VHarness_C15_ReceiverEndToEnd() {
 		seq = append(seq, delivery{ch: chunks[i], expect: true})
 	}
 	complete := true
-	switch vChoose("perturbation", 9) {
+	switch vChoose("perturbation", 10) {
 	case 0:
 		vReach("intact")
 	case 1: // drop chunk k: everything after it is out of order
@@ -315,6 +316,34 @@ func VHarness_C15_ReceiverEndToEnd() {
 		ns = append(ns, seq...)
 		seq = ns
 		vReach("restarted")
+	case 9: // after k chunks a chunk 0 with a damaged header arrives (a restart gone wrong), then the rest of the first attempt
+		k := 1 + vChoose("k", n-1)
+		bad := seq[0]
+		d := append([]byte(nil), bad.ch.Data...)
+		// one byte of the stored header checksum altered (the header itself stays
+		// concrete, so the refused header is not parsed)
+		hsz := int(uint64(d[0]) | uint64(d[1])<<8)
+		hp := 8 + hsz + vChoose("hpos", 4)
+		hm := vU8("hmask")
+		vAssume(hm != 0)
+		d[hp] ^= hm
+		// an all-zero checksum slot means "not checksummed" (files of older
+		// versions): that header would be accepted, which is a plain restart
+		vAssume(!vAnd(vAnd(d[8+hsz] == 0, d[9+hsz] == 0), vAnd(d[10+hsz] == 0, d[11+hsz] == 0)))
+		bad.ch.Data = d
+		bad.expect = false
+		var ns []delivery
+		for i := 0; i < k; i++ {
+			ns = append(ns, seq[i])
+		}
+		ns = append(ns, bad)
+		for i := k; i < n; i++ {
+			x := seq[i]
+			x.expect = false // the first attempt was abandoned when the new chunk 0 arrived
+			ns = append(ns, x)
+		}
+		seq, complete = ns, false
+		vReach("badrestart")
 	}
 	corrupt := false
 	for i := range seq {
@@ -429,5 +458,109 @@ func VHarness_C15_TimeoutAndIsolation() {
 		}
 		vAssert(rec.batches[0].Requests[0].Snapshot.Index == 100, "notification-for-the-right-stream")
 	}
+	vReach("done")
+}
+
+// vHandSplit cuts the main file of m into chunk 0 = the first `first` bytes
+// and following chunks of `rest` bytes, with the metadata the sender's
+// splitter produces (the receiver does not depend on chunk sizes being
+// uniform; this keeps a many-chunk stream small).
+func vHandSplit(fs vfs.IFS, m pb.Message, first, rest int) []pb.Chunk {
+	data, ok := vReadFile(fs, m.Snapshot.Filepath)
+	if !ok {
+		panic("no source")
+	}
+	tmpl := vLoadChunks(fs, m)[0]
+	var cuts [][]byte
+	cuts = append(cuts, data[:first])
+	for off := first; off < len(data); off += rest {
+		end := off + rest
+		if end > len(data) {
+			end = len(data)
+		}
+		cuts = append(cuts, data[off:end])
+	}
+	var out []pb.Chunk
+	for i := range cuts {
+		c := tmpl
+		c.ChunkId = uint64(i)
+		c.FileChunkId = uint64(i)
+		c.ChunkCount = uint64(len(cuts))
+		c.FileChunkCount = uint64(len(cuts))
+		c.ChunkSize = uint64(len(cuts[i]))
+		c.Data = append([]byte(nil), cuts[i]...)
+		out = append(out, c)
+	}
+	return out
+}
+
+// C15 (receiver, many chunks, scaled block size): one byte of the main file is
+// altered in transit somewhere after the header and EVERY chunk of the stream
+// is still delivered (a sender that keeps going, or resumes, after a refused
+// chunk).  Whichever chunk the incremental validator refuses, the stream must
+// never finalize, never notify, and what is left of it is collected.
+//vcheck: reach=intact,refused-mid-stream,refused-at-the-end,done workers=16 forbid=.
+func VHarness_C15_CorruptMidStream() {
+	snapshotChunkSize = 1040
+	fs := vfs.NewMemFS()
+	payload := make([]byte, 60)
+	for i := range payload {
+		payload[i] = byte(i*7 + 3)
+	}
+	m := vSourceSnapshot(fs, 100, payload, nil)
+	chunks := vHandSplit(fs, m, int(rsm.HeaderSize)+16, 24)
+	n := len(chunks)
+	vAssert(n >= 5, "at-least-five-chunks")
+	srcMain, _ := vReadFile(fs, m.Snapshot.Filepath)
+	rec := &vRecv{}
+	c := vNewReceiver(fs, rec)
+	finalDir := vRoot + "/snapshot-0000000000000064"
+	mainDst := finalDir + "/main.gbsnap"
+	if vBool("intact") {
+		for i := range chunks {
+			vAssert(c.Add(chunks[i]), "intact-stream-accepted")
+		}
+		vAssert(len(rec.batches) == 1 && rec.confirmed == 1, "exactly-one-notification")
+		dst, ok := vReadFile(fs, mainDst)
+		vAssert(ok && len(dst) == len(srcMain), "final-main-file-exists")
+		if ok && len(dst) == len(srcMain) {
+			for i := range dst {
+				vAssert(dst[i] == srcMain[i], "final-main-file-identical")
+			}
+		}
+		vReach("intact")
+		vReach("done")
+		return
+	}
+	pos := int(rsm.HeaderSize) + vChoose("pos", len(srcMain)-int(rsm.HeaderSize))
+	mask := vU8("mask")
+	vAssume(mask != 0)
+	k, off := 0, pos
+	for off >= len(chunks[k].Data) {
+		off -= len(chunks[k].Data)
+		k++
+	}
+	chunks[k].Data[off] ^= mask
+	refusedAt := -1
+	for i := range chunks {
+		if !c.Add(chunks[i]) && refusedAt < 0 {
+			refusedAt = i
+		}
+	}
+	vAssert(refusedAt >= 0, "altered-stream-has-a-refused-chunk")
+	if refusedAt >= 0 && refusedAt < n-1 {
+		vReach("refused-mid-stream")
+	}
+	if refusedAt == n-1 {
+		vReach("refused-at-the-end")
+	}
+	vAssert(len(rec.batches) == 0 && rec.confirmed == 0, "stream-with-a-corrupt-chunk-never-notifies")
+	_, ok := vReadFile(fs, mainDst)
+	vAssert(!ok, "stream-with-a-corrupt-chunk-never-finalizes")
+	for t := uint64(0); t < c.timeout+1; t++ {
+		c.Tick()
+	}
+	vAssert(len(c.tracked) == 0, "stalled-stream-collected")
+	vAssert(vTempDirGone(fs), "temp-dir-removed-by-collector")
 	vReach("done")
 }
